@@ -494,3 +494,56 @@ Proof.
 Qed.
 
 End ColumnStack.
+
+(* ---------- dstack of vectors: n vectors of one length l become the 1 x l x n array whose entry (0, j, k) is
+   element j of input k (each vector is promoted to [1; l; 1] and the promoted inputs are joined along axis 2) ---------- *)
+Section DstackVectors.
+Context {T : Type} (d : T).
+
+Definition as_row (l : nat) (a : arr T) : arr T := mk (elems a) [1; l].
+
+Theorem dstack_vectors l (first : arr T) rest :
+  0 < l -> Forall (fun a => wf a /\ shape a = [l]) (first :: rest) ->
+  exists R, dstack d (first :: rest) = Ok R /\ wf R /\ shape R = [1; l; length (first :: rest)] /\
+    forall j k, j < l -> k < length (first :: rest) ->
+      get d R [0; j; k] = nth j (elems (nth k (first :: rest) first)) d.
+Proof.
+  intros Hl F. set (arrs := first :: rest) in *.
+  assert (forall a, In a arrs -> wf a /\ shape a = [l]) as Fa by (apply Forall_forall; exact F).
+  assert (Forall (fun a => wf a /\ shape a = [1; l]) (map (as_row l) arrs)) as F'.
+  { apply Forall_forall. intros u Hu. apply in_map_iff in Hu as (a & <- & Ha). destruct (Fa a Ha) as [W S].
+    unfold as_row. cbn [shape elems]. split; [|reflexivity]. unfold wf in *. cbn [shape elems prod]. rewrite W, S. cbn. lia. }
+  destruct (concat_units d [1; l] 2 (as_row l first) (map (as_row l) rest) ltac:(cbn; lia) ltac:(repeat constructor; lia)
+              ltac:(cbn; lia) ltac:(cbn; unfold two64; lia) F') as (R & E & WR & SR & G).
+  assert (length (as_row l first :: map (as_row l) rest) = length arrs) as Ln by (unfold arrs; cbn [length]; now rewrite map_length).
+  exists R. cbn [insert_nth] in SR. rewrite Ln in SR.
+  split; [|split; [exact WR|split; [rewrite SR; reflexivity|]]].
+  - unfold dstack. unfold arrs at 1. cbv iota. fold arrs.
+    rewrite (mapM_ok _ (fun a => unit_view [1; l] 2 (as_row l a))).
+    2:{ intros a Ha. destruct (Fa a Ha) as [W S]. unfold atleast, ndim. rewrite S. cbn [length Nat.leb].
+        unfold unit_view, as_row. cbn [insert_nth elems]. apply reshape_iff. unfold len. rewrite W, S. cbn. lia. }
+    cbn [bind]. rewrite <- map_map.
+    assert (validate_stack_shapes (map (unit_view [1; l] 2) (map (as_row l) arrs)) 2 2 = Ok tt) as ->.
+    { apply (validate_ok 2 [1; l] 3); [lia|]. apply Forall_forall. intros u Hu. apply in_map_iff in Hu as (a & <- & Ha).
+      rewrite Forall_forall in F'. destruct (F' a Ha) as [W S]. unfold joinable, unit_view. cbn [shape elems insert_nth]. repeat split.
+      - unfold wf in *. cbn [shape elems] in *. rewrite W, S. cbn. lia.
+      - repeat constructor; lia. }
+    cbn [bind]. change (map (as_row l) arrs) with (as_row l first :: map (as_row l) rest).
+    rewrite E. cbn [bind map].
+    change (unit_view [1; l] 2 (as_row l first) :: map (unit_view [1; l] 2) (map (as_row l) rest))
+      with (map (unit_view [1; l] 2) (as_row l first :: map (as_row l) rest)).
+    replace (upd (shape (unit_view [1; l] 2 (as_row l first))) 2
+               (sum_axis (map (unit_view [1; l] 2) (as_row l first :: map (as_row l) rest)) 2)) with (shape R).
+    + destruct R as [es sh]. apply reshape_iff. unfold len. symmetry. exact WR.
+    + rewrite SR. unfold unit_view at 1. cbn [shape insert_nth upd]. do 2 f_equal. unfold sum_axis.
+      assert (forall l0 k, fold_left (fun (s0 : nat) (a : arr T) => s0 + nth 2 (shape a) 0) (map (unit_view [1; l] 2) l0) k = k + length l0) as K.
+      { induction l0 as [|h t IH]; intros k; cbn [map fold_left length]; [lia|]. rewrite IH. unfold unit_view. cbn. lia. }
+      rewrite K. rewrite Ln. reflexivity.
+  - intros j k Hj Hk. rewrite (G [0; j; k]).
+    + change (as_row l first :: map (as_row l) rest) with (map (as_row l) arrs).
+      change (nth 2 [0; j; k] 0) with k. change (remove_nth [0; j; k] 2) with [0; j].
+      rewrite (nth_map_lt (as_row l) arrs _ first) by exact Hk. unfold get, as_row. cbn [shape elems flat prod]. f_equal. lia.
+    + rewrite SR. cbn [in_range]. repeat split; try lia.
+Qed.
+
+End DstackVectors.
